@@ -49,7 +49,7 @@ if phase == "confirm":
             return sh("bash run.sh", cwd=demo)
         return sh(meta.get("demo_cmd", "false"), cwd=demo)
     rc1, o1 = run_demo()
-    sh("git checkout -- .", cwd=wt)
+    sh("git reset -q --hard HEAD", cwd=wt)
     rc2, o2 = run_demo()
     res["demo_with_mutation_rc"], res["demo_without_rc"] = rc1, rc2
     res["confirmed"] = (not failed) and rc1 != 0 and rc2 == 0
